@@ -36,6 +36,13 @@ namespace rkcommon {
           initTaskSystemInternal(-1);
 
         g_ts->AddTaskSetToPipe(task);
+
+        // With a single tasking thread there is no worker that would ever pick
+        // the task up: run what is queued on the calling thread (like the
+        // serial back end does), otherwise schedule()/async() tasks would only
+        // run if the caller later happened to wait inside the tasking system.
+        if (g_ts->GetNumTaskThreads() == 1)
+          g_ts->WaitforAll();
       }
 
       void waitInternal(Task *task)
